@@ -1,7 +1,7 @@
 (* Props/C03.v — crash recovery is atomic and prefix-consistent *)
 From Coq Require Import List NArith Arith Bool.
 From SKV Require Import Base.Lex Txn.WriteSet Spec.Store.
-From SKV Require Import Crash.Proto Crash.ProtoSpec Crash.ProtoRefute Crash.Proto_proofs.
+From SKV Require Import Crash.Proto Crash.ProtoSpec Crash.ProtoRefute Crash.Proto_proofs Crash.ProtoRecovery_proofs.
 Import ListNotations.
 
 (* recovery as a specification: the state after the first n commits; states of longer prefixes
@@ -27,8 +27,20 @@ Proof. exact partial_batch_refuted. Qed.
 Theorem C03_flush_before_relog_refuted : flush_before_relog_refuted_stmt.
 Proof. exact flush_before_relog_refuted. Qed.
 
-Theorem C03_recovery_piece_unsynced_refuted : recovery_piece_unsynced_refuted_stmt.
-Proof. exact recovery_piece_unsynced_refuted. Qed.
+(* regression record of the recovery before c9fa42b (finding F46), and the repaired recovery on the same state *)
+Theorem C03_recovery_piece_unsynced_old_recovery_refuted : recovery_piece_unsynced_old_recovery_refuted_stmt.
+Proof. exact recovery_piece_unsynced_old_recovery_refuted. Qed.
+
+Theorem C03_repaired_piece_recovery : repaired_piece_recovery_stmt.
+Proof. exact repaired_piece_recovery. Qed.
+
+(* recovery with pieces (any split, also in the middle of a batch): accepted, and a crash of either kind
+   at any point inside it recovers the live batches below a bound and nothing in part *)
+Theorem C03_recovery_pieces_accepted : recovery_pieces_accepted_stmt.
+Proof. exact recovery_pieces_accepted. Qed.
+
+Theorem C03_crash_in_recovery_safe : crash_in_recovery_safe_stmt.
+Proof. exact crash_in_recovery_safe. Qed.
 
 Theorem C03_p9_needed : p9_needed_stmt.
 Proof. exact p9_needed. Qed.
